@@ -23,14 +23,16 @@ GROUPS["reader_step"] = {
                 "                    #[cfg(kani)]\n                    verif_reader::pre_read_assert(self);\n")],
     "params_crates": ["flussab"],
     "params": {
-        "quick": {"CAP": 8, "MAXCHUNK": 2, "MAXREQ": 6, "SCAP": 16},
-        "thorough": {"CAP": 12, "MAXCHUNK": 4, "MAXREQ": 9, "SCAP": 26},
+        "quick": {"CAP": 8, "MAXCHUNK": 2, "MAXREQ": 6, "SCAP": 16, "SHRINKCAP": 12},
+        "thorough": {"CAP": 12, "MAXCHUNK": 4, "MAXREQ": 9, "SCAP": 26, "SHRINKCAP": 16},
     },
     "timeout": {"quick": 1500, "thorough": 5400},
     "flags_tier": {"quick": ["--default-unwind", "8"], "thorough": ["--default-unwind", "11"]},
     "harnesses": [
         ("step_request_more", {"props": ["C02", "C09", "C10", "C14", "C01", "C04", "C08"], "cost": 9,
                                "what": "one request_more from any Inv-state: window content, position, mark, flags, one read, buffer size bound"}),
+        ("step_request_more_shrink_region", {"props": ["C02", "C10", "C14"], "cost": 10, "flags": ["--default-unwind", "14"], "rss_gb": 24, "flags_thorough": ["--default-unwind", "18"],
+                                             "what": "request_more in the realign + shrink region with a buffer of up to SHRINKCAP bytes (chunk 1): the live window survives the shrink decision at its boundary cases"}),
         ("step_request", {"props": ["C02", "C09", "C14"], "cost": 3,
                           "what": "request(n): falls short only at end/error, no read when buffered data suffices"}),
         ("step_request_byte_at_offset", {"props": ["C02", "C09", "C14"], "cost": 3,
@@ -62,7 +64,7 @@ _WRITER_COMMON = {
 GROUPS["writer_step"] = dict(_WRITER_COMMON, **{
     "name": "writer_step",
     "params": {"quick": {"WCAP": 4, "MAXS": 9}, "thorough": {"WCAP": 6, "MAXS": 19}},
-    "flags": ["--default-unwind", "5"],
+    "flags": ["-Z", "stubbing", "--default-unwind", "5"],
     "harnesses": [
         ("step_write_all_defer_err_ok_sink", {"cost": 5, "what": "write_all_defer_err(slice of 0..MAXS bytes) from any Inv-state, accept-all sink: fast path, fill+flush+buffer, flush+write-through"}),
         ("step_write_trait_methods_ok_sink", {"cost": 5, "what": "Write::write / Write::write_all return Ok(len)/Ok(())"}),
@@ -82,7 +84,7 @@ GROUPS["writer_step"] = dict(_WRITER_COMMON, **{
 GROUPS["writer_digits"] = dict(_WRITER_COMMON, **{
     "name": "writer_digits",
     "params": {"quick": {"WCAP": 12, "MAXS": 2}, "thorough": {"WCAP": 12, "MAXS": 2}},
-    "flags": ["--default-unwind", "7"],
+    "flags": ["-Z", "stubbing", "--default-unwind", "7"],
     "harnesses": [
         ("digits_i8", {"cost": 3, "what": "text::ascii_digits::<i8> all values: canonical decimal text"}),
         ("digits_u8", {"cost": 3, "what": "u8"}),
@@ -311,6 +313,7 @@ _CNF_TOKEN_SPECS = [
 _US_INJECT = "        #[cfg(kani)]\n        if crate::token::verif_stub::on() {\n            return crate::token::verif_stub::any_err();\n        }\n"
 
 GROUPS["cnf_parser_t2"] = dict(_MODEL, **{
+    "overlay_extra": [("flussab/src/lib.rs", "q", "harness/flussab/verif_q.rs", "pub")],
     "name": "cnf_parser_t2",
     "package": "flussab-cnf",
     "prefix": "cnf::verif_cnf::",
@@ -318,7 +321,7 @@ GROUPS["cnf_parser_t2"] = dict(_MODEL, **{
                 ("flussab-cnf/src/cnf.rs", "cnf", "harness/cnf/parser_t2.rs")],
     "inject": _stub_injects("flussab-cnf/src/token.rs", _CNF_TOKEN_SPECS)
               + [("flussab-cnf/src/cnf.rs", r"fn unexpected_statement\(&mut self\) -> ParseError \{\n", _US_INJECT)],
-    "params": {"quick": {"N": 2}, "thorough": {"N": 2}},
+    "params": {"quick": {"N": 2, "QCAP": 4}, "thorough": {"N": 2, "QCAP": 4}},
     "flags": ["--default-unwind", "6"],
     "rss_gb": 16,
     "timeout": {"quick": 1200, "thorough": 3600},
@@ -428,11 +431,16 @@ def _aiger_t3(kind, make_parser, harnesses):
         "overlay": [("flussab-aiger/src/token.rs", "stub", "harness/aiger/token_stub.rs"),
                     ("flussab-aiger/src/%s.rs" % kind, "%s3" % kind[0], "harness/aiger/%s_t3.rs" % kind)],
         "overlay_extra": _QUEUE["overlay_extra"],
-        "inject": g["inject"] + _QUEUE["inject"],
+        "inject": g["inject"] + _QUEUE["inject"] + [("flussab-aiger/src/lib.rs", r"\A", "#![cfg_attr(kani, feature(allocator_api))]\n"),
+                                                   ("flussab-aiger/src/%s.rs" % kind, r"\n\s*let justice_property_count = self\.header\.justice_property_count;\n",
+                                                    "        #[cfg(kani)]\n        if crate::token::verif_stub::cut_after_prealloc() {\n            return Err(crate::token::verif_stub::any_err());\n        }\n")],
         "append_text": g["append_text"] + [_SMALL_WRITER],
         "params": {"quick": {"N": 2, "QCAP": 28}, "thorough": {"N": 2, "QCAP": 28}},
-        "flags": ["--default-unwind", "12"],
-        "harnesses": harnesses,
+        "flags": ["-Z", "stubbing", "--default-unwind", "12"],
+        "harnesses": harnesses + [
+            ("parse_prealloc_bound", {"props": ["C05"], "cost": 4, "solver_only": ["allocation bound"], "flags": ["--default-unwind", "2"],
+                                      "what": "%s Parser::parse: every reserve/with_capacity is <= 2^16 elements for EVERY header (counts up to usize::MAX): declared counts cannot drive allocation" % kind}),
+        ],
     })
     return g
 
@@ -617,6 +625,33 @@ GROUPS["solver_log_t2"] = dict(GROUPS["cnf_parser_t2"], **{
 
 GROUPS["wcnf_parser_t2"] = _cnf_family_t2("wcnf")
 GROUPS["gcnf_parser_t2"] = _cnf_family_t2("gcnf")
+
+def _cnf_t3(kind):
+    t2 = GROUPS["cnf_parser_t2" if kind == "cnf" else "%s_parser_t2" % kind]
+    t2file = "harness/cnf/parser_t2.rs" if kind == "cnf" else "harness/cnf/parser_t2_%s.rs" % kind
+    g = dict(t2)
+    g.update({
+        "name": "%s_t3" % kind,
+        "prefix": "%s::verif_%s3::" % (kind, kind),
+        "overlay": [("flussab-cnf/src/token.rs", "stub", "harness/cnf/token_stub.rs"),
+                    ("flussab-cnf/src/%s.rs" % kind, kind, t2file),
+                    ("flussab-cnf/src/%s.rs" % kind, "%s3" % kind, "harness/cnf/rt_t3_%s.rs" % kind)],
+        "overlay_extra": _QUEUE["overlay_extra"],
+        # REAL clause_lits (not stubbed); everything below it scripted
+        "inject": [i for i in t2["inject"] if "clause_lits" not in i[2]] + _QUEUE["inject"],
+        "append_text": t2["append_text"] + [_SMALL_WRITER],
+        "params": {"quick": {"N": 2, "QCAP": 16, "MAXLITS": 2 if kind == "cnf" else 1}, "thorough": {"N": 2, "QCAP": 16, "MAXLITS": 2}},
+        "flags": ["--default-unwind", "4"],
+        "rss_gb": 20,
+        "timeout": {"quick": 1500, "thorough": 3000},
+        "harnesses": [
+            ("rt_clause", {"props": ["C03"], "cost": 6, "what": "%s write_clause -> next_clause (real clause_lits) is the identity for every clause of <= MAXLITS i8 literals: separators, terminating 0, exact consumption" % kind}),
+        ],
+    })
+    return g
+
+for _k in ("cnf", "wcnf", "gcnf"):
+    GROUPS["%s_t3" % _k] = _cnf_t3(_k)
 
 GROUPS["parser_c15"] = {
     "name": "parser_c15",
